@@ -5,15 +5,17 @@ import os
 import numpy as np
 from fractions import Fraction as Fr
 
-from ..common import F, rat, rats, parse_rats, quiet
+from ..common import F, rat, rats, ints, parse_rats, quiet
 
 PID = "C14"
 CLAIM = dict(
     design="3/C14",
     technique="Lean 4 proof over an executable model of weights_tetra (sorting, 1e-12 separation, accurate and "
-              "polynomial branches, der 0-3), of the 12-tetrahedra parallelepiped weight and of the band-group "
-              "completion of weights_all_band_groups; model tied to the numba code by a differential run on dyadic "
-              "inputs; property oracle on the real code against the exact volume fraction evaluated in rationals",
+              "polynomial branches, der 0-3), of the 12-tetrahedra parallelepiped weight, of the band-group "
+              "completion and band selection of weights_all_band_groups, of the lazy weight cache of TetraWeights (a "
+              "state machine over Fermi-array objects with identity and mutable contents) and of the run-level sum "
+              "over K-points; model tied to the numba code by a differential run on dyadic inputs and on query "
+              "histories; property oracle on the real code against the exact volume fraction evaluated in rationals",
     text="Theorems (any linearly ordered field, ARBITRARY corners incl. coincident, any order): every branch of "
          "weights_tetra equals the truncated-power form of the exact volume fraction (and its term-wise derivatives "
          "for der=1,2,3) of the sorted corners after the 1e-12 separation, which moves no corner by more than 3e-12; "
@@ -21,27 +23,40 @@ CLAIM = dict(
          "corner permutations; over the reals the der+1 weight IS the derivative of the der weight and der<=2 "
          "weights are continuous; the 12 tetrahedra of a parallelepiped have volume 1/12 each and cover the cell, so "
          "the parallelepiped weight inherits range/monotonicity; groups + lumped sea group count each band once, so "
-         "tetra CumDOS is 0 below all bands and NB above.",
+         "tetra CumDOS is 0 below all bands and NB above; selecting all bands = no selection and a selection weights a "
+         "group by the number of its selected bands; the weight cache is transparent for every history of queries in "
+         "which no registered Fermi array is modified in place (and provably stale otherwise); with corner energies "
+         "= band energies at the cell corners (C33) the weights are those of the band structure; with sum of K-point "
+         "factors = 1 (C06) the run-level result of constant per-point values is that constant and is monotone.",
     note="Trusted: Lean kernel + Mathlib; the closed form 'volume fraction = sum of truncated cubes' is the "
          "classical Hermite-Genocchi identity and is taken as the definition of the exact fraction; numba "
-         "floating point is checked, not proved.  Known numerical finding F13: the polynomial branch (der>=1, or "
-         "accurate=False) loses all digits for nearly coincident corners.",
+         "floating point is checked, not proved.  Known numerical findings: F13 the polynomial branch (der>=1, or "
+         "accurate=False) loses all digits for nearly coincident corners; F15 ZeroDivisionError for coincident corners "
+         "of magnitude >= 16384.",
 )
 TRUSTED = [
     "spec: exact fraction := sum_{e_i<=eps} (eps-e_i)^3 / prod_{j!=i}(e_j-e_i) (Hermite-Genocchi form of the volume of "
     "{x in simplex : sum x_i e_i <= eps}); taken as definition",
     "modelled: weights_tetra (sorted(), diff_min loop, both branches, der 0-3), TetraWeightsParal.weight_1k1b_priv, "
-    "get_bands_in_range with Ebandmin/Ebandmax, get_bands_below/above_range, the group dictionary of "
-    "weights_all_band_groups (der 0, -1, >=1)",
+    "get_bands_in_range with Ebandmin/Ebandmax and select_bands, get_bands_below/above_range, the group dictionary and "
+    "weight_select_bands factor of weights_all_band_groups (der 0, -1, >=1), TetraWeights.index_eFermi / __weight_1b "
+    "(identity-keyed cache), Data_K.tetraWeights (which energies feed the weight object), the run-level sum "
+    "sum_K factor_K x mean over the FFT points",
+    "named hypotheses taken from other properties: C33 (corner energies are the band energies at the shifted k-points), "
+    "C06 (K-point factors sum to 1 for every grid and refinement history)",
     "not modelled (oracle only): numba floating point and the catastrophic cancellation of the polynomial branch; "
-    "select_bands weighting in weights_all_band_groups; corner energies (C33); the caching of weights per (ik, ib)",
+    "the einsum of weights with the formula values in StaticCalculator.__call__ (tetra branch); EnergyResult packaging",
     "floating point e[i]+1e-12 rounds: model and code are compared through the proven monotonicity in the corners "
     "(sandwich between diff_min(1-eta) and diff_min(1+eta))",
+    "in-place modification of a Fermi array that a TetraWeights object has already seen returns stale weights "
+    "(theorem cache_stale_after_inplace_change, reproduced on the real object by the correspondence); calculators copy "
+    "their Efermi (np.array) and never modify it, so this state is unreachable through the calculator API",
 ]
 RULE = ("corner sets: random order, scales 1e-3..1e3, offsets up to 1e2 (and 1e5), gaps from O(1) down to 1e-13, "
         "pairs/triples/quadruples of exactly coincident corners; Fermi levels inside every interval, exactly at "
-        "corners, below and above; non-trivial = at least one Fermi level strictly inside the corner range; "
-        "distinct = distinct (kind, corners, Fermi levels, der, branch)")
+        "corners, below and above; Fermi arrays starting exactly at a band maximum / ending at a band minimum; query "
+        "histories with repeated, equal-content and in-place modified Fermi arrays; non-trivial = at least one Fermi "
+        "level strictly inside the corner range; distinct = distinct (kind, corners, Fermi levels, der, branch)")
 
 DMIN = 1e-12
 EPS = 2.0 ** -52
@@ -334,7 +349,10 @@ def corr(ctx):
         nef = rng.choice([1, 2, 5])
         step = Fr(rng.randint(1, 8), 8)
         efs = [ef0 + j * step for j in range(nef)]
-        der = rng.choice([0, 0, 1, -1])
+        der = rng.choice([0, 0, 1, 1, 2, -1])
+        sel = None
+        if der >= 1 and rng.random() < 0.6:
+            sel = sorted(rng.sample(range(nb), rng.randint(1, nb))) if rng.random() < 0.8 else list(range(nb))
         EminP = rng.choice([None, None, dy(rng, -4, 0, 8)])
         EmaxP = rng.choice([None, None, dy(rng, 0, 4, 8)])
         eCenter = np.array([[float(c) for c in cen]])
@@ -343,16 +361,18 @@ def corr(ctx):
         Emax = [max([cen[b]] + [corn[v][b] for v in range(4)]) for b in range(nb)]
         ef_f = np.array([float(x) for x in efs])
         case = dict(eCenter=eCenter, eCorners=eCorners, eFermi=ef_f, der=der, degen_thresh=float(th), degen_Kramers=kr,
-                    Emin=EminP, Emax=EmaxP)
+                    Emin=EminP, Emax=EmaxP, select_bands=sel)
         with ctx.attempt("TetraWeights.weights_all_band_groups", case):
             tw = TetraWeights(eCenter=eCenter, eCorners=eCorners)
-            got = tw.weights_all_band_groups(ef_f, der=der, degen_thresh=float(th), degen_Kramers=kr,
-                                             Emin=-np.inf if EminP is None else float(EminP),
-                                             Emax=np.inf if EmaxP is None else float(EmaxP))[0]
+            kwg = dict(der=der, degen_thresh=float(th), degen_Kramers=kr,
+                       Emin=-np.inf if EminP is None else float(EminP), Emax=np.inf if EmaxP is None else float(EmaxP))
+            got = tw.weights_all_band_groups(ef_f, select_bands=None if sel is None else np.array(sel), **kwg)[0]
+            got0 = tw.weights_all_band_groups(ef_f, **kwg)[0] if sel is not None else None
             lines.append(f"groups {rats(cen)} {rats(Emin)} {rats(Emax)} {rat(th)} {int(kr)} {rat(efs[0])} {rat(efs[-1])} "
-                         f"{der} {'-inf' if EminP is None else rat(EminP)} {'inf' if EmaxP is None else rat(EmaxP)}")
-            checks.append(("groups", [len(lines) - 1], got, 0.0, case))
-            ctx.count(f"corr.groups.der{der}")
+                         f"{der} {'-inf' if EminP is None else rat(EminP)} {'inf' if EmaxP is None else rat(EmaxP)} "
+                         f"{'none' if sel is None else ints(sel)}")
+            checks.append(("groups", [len(lines) - 1], (got, got0), 0.0, case))
+            ctx.count(f"corr.groups.der{der}{'.sel' if sel is not None else ''}")
             # the weight of every window group is the mean of the band weights (exact reference, accurate branch)
             if der == 0 and all(len(set([cen[b]] + [corn[v][b] for v in range(4)])) >= 1 for b in range(nb)):
                 for (a, b), wv in got.items():
@@ -369,8 +389,104 @@ def corr(ctx):
                             ctx.mismatch(f"weights_all_band_groups: weight of group {(a, b)} is not the mean of the band "
                                          f"weights", dict(case, got=wv, expected=ref / (b - a)))
 
+    # (d) the lazy weight cache: histories of queries with several Fermi arrays (same object again, equal contents in a
+    #     different object, IN-PLACE modified objects) on ONE TetraWeights object ---------------------------------------
+    for it in range(ctx.n(25, 200)):
+        nk = rng.randint(1, 2)
+        nb = rng.randint(1, 3)
+        corn = {}
+        for ik in range(nk):
+            cols = [sorted(dy(rng, -3, 3, 4) for _ in range(nb)) for _ in range(4)]   # sorted in the band index
+            for ib in range(nb):
+                c4 = [cols[v][ib] for v in range(4)]
+                # well separated corners (>= 1/4) so that every derivative order is well conditioned
+                while len(set(c4)) < 4:
+                    c4 = [c + Fr(rng.randint(0, 3), 4) * (v_ + 1) for v_, c in enumerate(c4)]
+                corn[ik, ib] = c4
+        # re-sort in the band index per corner after the de-duplication
+        for ik in range(nk):
+            for v in range(4):
+                col = sorted(corn[ik, ib][v] for ib in range(nb))
+                for ib in range(nb):
+                    corn[ik, ib][v] = col[ib]
+        if any(len(set(corn[k])) < 4 for k in corn):
+            continue
+        eCorners = np.array([[[float(corn[ik, ib][v]) for ib in range(nb)] for v in range(4)] for ik in range(nk)])
+        eCenter = eCorners.mean(axis=1)
+        Emn = np.minimum(eCenter, eCorners.min(axis=1))
+        Emx = np.maximum(eCenter, eCorners.max(axis=1))
+        arrays, contents = {}, {}
+        ops, expect = [], []
+        nfl = rng.randint(1, 4)
+        case = dict(eCorners=eCorners, history=[])
+        with ctx.attempt("TetraWeights cache history", case):
+            tw = TetraWeights(eCenter=eCenter, eCorners=eCorners)
+            for step_ in range(rng.randint(3, 8)):
+                r = rng.random()
+                if not arrays or r < 0.25:                      # a new array object (maybe equal contents)
+                    i = len(arrays)
+                    r2 = rng.random()
+                    if not contents or r2 < 0.4:
+                        vals = sorted(dy(rng, -4, 4, 4) for _ in range(nfl))
+                    elif r2 < 0.7 or nfl < 3:
+                        vals = list(contents[rng.choice(sorted(contents))])          # equal contents, another object
+                    else:                                                          # same length and end points only
+                        base_ = contents[rng.choice(sorted(contents))]
+                        vals = [base_[0]] + sorted(base_[0] + (base_[-1] - base_[0]) * Fr(rng.randint(0, 16), 16)
+                                                   for _ in range(nfl - 2)) + [base_[-1]]
+                        ctx.count("corr.cache.same_ends_other_interior")
+                    arrays[i] = np.array([float(x) for x in vals])
+                    contents[i] = vals
+                    ops.append(f"m:{i}:{rats(vals)}")
+                    case["history"].append(("new array", i, [float(x) for x in vals]))
+                elif r < 0.4:                                   # in-place modification of an existing object
+                    i = rng.choice(sorted(arrays))
+                    vals = sorted(dy(rng, -4, 4, 4) for _ in range(nfl))
+                    arrays[i][:] = [float(x) for x in vals]
+                    contents[i] = vals
+                    ops.append(f"m:{i}:{rats(vals)}")
+                    case["history"].append(("in-place change", i, [float(x) for x in vals]))
+                    ctx.count("corr.cache.inplace_change")
+                else:
+                    i = rng.choice(sorted(arrays))
+                    der = rng.choice([0, 0, 1, 2, 3, -1])
+                    ef = arrays[i]
+                    got = tw.weights_all_band_groups(ef, der=der, degen_thresh=-1)
+                    case["history"].append(("query", i, der))
+                    for ik in range(nk):
+                        for ib in range(nb):
+                            if Emx[ik, ib] >= ef[0] and Emn[ik, ib] <= ef[-1]:    # the bands the call evaluates
+                                if (ib, ib + 1) not in got[ik]:
+                                    ctx.fail(f"weights_all_band_groups(degen_thresh=-1): band {ib} with Emin={Emn[ik, ib]} "
+                                             f"<= eFermi[-1]={ef[-1]} and Emax={Emx[ik, ib]} >= eFermi[0]={ef[0]} is missing "
+                                             f"from the groups {sorted(got[ik])}", dict(case, eFermi=ef.tolist(), der=der))
+                                    continue
+                                ops.append(f"q:{i}:{der}:{ik}:{ib}")
+                                expect.append((np.array(got[ik][(ib, ib + 1)], dtype=float), der, ik, ib))
+                    ctx.count("corr.cache.query")
+            if expect:
+                flat = ";".join(",".join(rats(corn[ik, ib]).split(",")) for ik in range(nk) for ib in range(nb))
+                lines.append(f"twseq {rat(dmin)} {flat} {nb} {'|'.join(ops)}")
+                checks.append(("twseq", [len(lines) - 1], (expect, ops), 0.0, dict(case)))
+
     out = ctx.lean(lines)
     for kind, idx, got, bound, case in checks:
+        if kind == "twseq":
+            expect, ops = got
+            answers = [a for a in out[idx[0]].split(";") if a != "-"]
+            ctx.case(signature=("twseq", lines[idx[0]]), nontrivial=True)
+            if len(answers) != len(expect):
+                ctx.mismatch(f"cache history: {len(expect)} queries, model answered {len(answers)}",
+                             dict(case, line=lines[idx[0]]))
+                continue
+            for (g, der, ik, ib), a in zip(expect, answers):
+                m = np.array([float(x) for x in parse_rats(a)])
+                tol = 1e-9 if der not in (0, -1) else 64 * EPS
+                if g.shape != m.shape or np.abs(g - m).max() > tol * (1 + np.abs(m).max()):
+                    ctx.mismatch(f"cache history: weights of (ik={ik}, ib={ib}, der={der}) code={g.tolist()} "
+                                 f"model={m.tolist()}", dict(case, line=lines[idx[0]]))
+                    break
+            continue
         if kind in ("wt", "paral"):
             lo = [float(x) for x in parse_rats(out[idx[0]])]
             hi = [float(x) for x in parse_rats(out[idx[-1]])]
@@ -383,8 +499,17 @@ def corr(ctx):
                                  dict(case, line=lines[idx[0]]))
                     break
         else:
-            inr, lum = out[idx[0]].split(" | ")
-            want = set() if inr == "_" else {tuple(int(t) for t in p.split(",")) for p in inr.split(";")}
+            got, got0 = got
+            inr, lum, wsl = out[idx[0]].split(" | ")
+            order = [] if inr == "_" else [tuple(int(t) for t in p.split(",")) for p in inr.split(";")]
+            want = set(order)
+            if got0 is not None and set(tuple(int(t) for t in k) for k in got) == want:
+                for g, wm in zip(order, parse_rats(wsl)):
+                    if g in got0 and np.abs(np.asarray(got[g]) - np.asarray(got0[g]) * float(wm)).max() > \
+                            8 * EPS * (1e-300 + np.abs(got0[g]).max()):
+                        ctx.mismatch(f"weights_all_band_groups: weight of group {g} with select_bands is not "
+                                     f"weight_select_bands={wm} times the unselected weight",
+                                     dict(case, line=lines[idx[0]], selected=got[g], unselected=got0[g]))
             lumped = None if lum == "_" else tuple(int(t) for t in lum.split(","))
             ctx.case(signature=("groups", lines[idx[0]]), nontrivial=len(want) + (lumped is not None) > 0)
             keys = {tuple(int(t) for t in k) for k in got}
@@ -439,9 +564,14 @@ def groups_oracle(ctx, scale):
         eCenter = allE[:, 0, :]
         eCorners = allE[:, 1:, :].reshape((nk, 2, 2, 2, nb) if paral else (nk, 4, nb))
         lo, hi = allE.min(), allE.max()
-        mode = rng.choice(["span", "span", "below", "above", "single", "inside"])
+        mode = rng.choice(["span", "span", "below", "above", "single", "inside", "tie", "tie"])
         nef = 1 if mode == "single" else rng.randint(2, 7)
-        if mode == "below":
+        if mode == "tie":
+            # the Fermi array starts (bitwise) at the maximum / minimum of a band over the k-cell
+            ikt, ibt = rng.randrange(nk), rng.randrange(nb)
+            a = allE[ikt, :, ibt].max() if rng.random() < 0.7 else allE[ikt, :, ibt].min()
+            b = a + rng.uniform(0.1, 3)
+        elif mode == "below":
             a, b = lo - 3, lo - 1e-9
         elif mode == "above":
             a, b = hi + 4e-12, hi + 2
@@ -450,6 +580,12 @@ def groups_oracle(ctx, scale):
         else:
             a, b = lo - rng.uniform(0, 1), hi + rng.uniform(1e-11, 1)
         ef = np.linspace(a, b, nef) if nef > 1 else np.array([rng.uniform(lo - 1, hi + 1)])
+        if mode == "tie":
+            ef[0] = a                                            # exactly (linspace may round the end points)
+            if rng.random() < 0.5:                               # ... and the last level exactly at a band minimum
+                cands = [x for x in allE.min(axis=1).ravel() if x > ef[-2]] if nef > 1 else []
+                if cands:
+                    ef[-1] = rng.choice(cands)
         case = dict(eCenter=eCenter, eCorners=eCorners, eFermi=ef, degen_thresh=th, degen_Kramers=kr, paral=paral)
         ctx.count(f"oracle.groups.{'paral' if paral else 'tetra'}.{mode}")
         with ctx.attempt("weights_all_band_groups(der=0)", case):
@@ -526,7 +662,7 @@ def system_oracle(ctx, scale):
     from ..wbsys import rand_system, wb
     rng = ctx.rng
     rs = np.random.RandomState(rng.getrandbits(31))
-    for it in range(ctx.n(4, 16) * scale):
+    for it in range(ctx.n(2, 16) * scale):
         nw = int(rs.randint(1, 4))
         doubled = rng.random() < 0.35
         hop = rng.choice([1.0, 1.0, 0.3, 0.0])
@@ -564,30 +700,76 @@ def system_oracle(ctx, scale):
                     seed_note="system = wbsys.rand_system(RandomState drawn from ctx.rng)")
         ctx.count(f"oracle.system.paral.{mode}.{'doubled' if doubled else 'plain'}.hop{hop}")
         with ctx.attempt("run(CumDOS/DOS, tetra=True) on a parallelepiped grid", case):
+            from wannierberri.calculators.static import StaticCalculator
+            from wannierberri.formula import covariant as frml
+            selb = sorted(rng.sample(range(NB), rng.randint(1, NB))) if NB > 1 else [0]
+            if doubled:      # select whole Kramers pairs: the bands of a degenerate group have equal weights
+                selb = sorted({2 * (b // 2) for b in selb} | {2 * (b // 2) + 1 for b in selb})
+            Ef2 = np.array([rng.uniform(lo, hi), hi + 1.0])          # a second Fermi array seen by the same weight object
+            # a third one with the same length and the same end points as Ef, other interior points (non-uniform:
+            # the tetrahedron path accepts any Fermi array)
+            Ef3 = Ef[0] + (Ef[-1] - Ef[0]) * np.linspace(0, 1, nef) ** 2 if nef >= 3 else None
+            calcs = {
+                "cum": wb.calculators.static.CumDOS(Efermi=Ef, tetra=True, degen_thresh=th),
+                "dos": wb.calculators.static.DOS(Efermi=Ef, tetra=True, degen_thresh=th),
+                "cum2": wb.calculators.static.CumDOS(Efermi=Ef2, tetra=True, degen_thresh=th),
+                "cumh": StaticCalculator(Efermi=Ef, Formula=frml.Identity, fder=0, tetra=True, hole_like=True,
+                                         degen_thresh=th),
+                "dsel": wb.calculators.static.DOS(Efermi=Ef, tetra=True, degen_thresh=th, select_bands=np.array(selb))}
+            if Ef3 is not None:
+                calcs["cum3"] = wb.calculators.static.CumDOS(Efermi=Ef3, tetra=True, degen_thresh=th)
+            if rng.random() < 0.5:
+                calcs = dict(reversed(list(calcs.items())))          # evaluation order on every Data_K
             with quiet():
                 grid = wb.Grid(s, NK=NK, NKFFT=NKFFT)
-                res = wb.run(s, grid, calculators={
-                    "cum": wb.calculators.static.CumDOS(Efermi=Ef, tetra=True, degen_thresh=th),
-                    "dos": wb.calculators.static.DOS(Efermi=Ef, tetra=True, degen_thresh=th)},
-                    parallel=False, use_irred_kpt=False, symmetrize=False, print_Kpoints=False, adpt_num_iter=0,
+                res = wb.run(s, grid, calculators=calcs,
+                             parallel=False, use_irred_kpt=False, symmetrize=False, print_Kpoints=False, adpt_num_iter=0,
                     fout_name=os.path.join(ctx.work, "result"))
             cum = res.results["cum"].data
             dos = res.results["dos"].data
             ref0 = np.zeros(nef)
             ref1 = np.zeros(nef)
+            ref1s = np.zeros(nef)
+            ref2 = np.zeros(2)
+            ref3 = np.zeros(nef)
             bound1 = 0.0
             for ik in range(len(ks)):
                 for ib in range(NB):
+                    ref2 += paral_exact(0, Ecen[ik, ib], Ecor[ik, ..., ib], Ef2)
+                    if Ef3 is not None:
+                        ref3 += paral_exact(0, Ecen[ik, ib], Ecor[ik, ..., ib], Ef3)
                     if Ef[-1] < min(Ecen[ik, ib], Ecor[ik, ..., ib].min()):
                         continue
                     ref0 += paral_exact(0, Ecen[ik, ib], Ecor[ik, ..., ib], Ef)
-                    ref1 += paral_exact(1, Ecen[ik, ib], Ecor[ik, ..., ib], Ef)
+                    r1 = paral_exact(1, Ecen[ik, ib], Ecor[ik, ..., ib], Ef)
+                    ref1 += r1
+                    if ib in selb:
+                        ref1s += r1
                     for t in paral_tets():
                         bound1 += poly_bound(1, [Ecen[ik, ib]] + [Ecor[(ik,) + v + (ib,)] for v in t],
                                              M=max(abs(lo), abs(hi), abs(Ef[0]), abs(Ef[-1]))) / 12
             ref0 /= len(ks)
             ref1 /= len(ks)
+            ref1s /= len(ks)
+            ref2 /= len(ks)
             bound1 /= len(ks)
+            # a second Fermi array in the same run, the hole-like (der = -1) completion, a band selection
+            if hop != 0.0 and np.abs(res.results["cum2"].data - ref2).max() > 1e-9:
+                ctx.fail(f"CumDOS(tetra=True) for a second Fermi array in the same run {res.results['cum2'].data.tolist()} "
+                         f"differs from the exact fractions {ref2.tolist()}", dict(case, Efermi2=Ef2))
+            if Ef3 is not None and hop != 0.0 and np.abs(res.results["cum3"].data - ref3 / len(ks)).max() > 1e-9:
+                ctx.fail(f"CumDOS(tetra=True) for a Fermi array with the same length and end points as another one in the "
+                         f"same run {res.results['cum3'].data.tolist()} differs from the exact fractions "
+                         f"{(ref3 / len(ks)).tolist()}", dict(case, Efermi3=Ef3))
+            volc = abs(np.linalg.det(s.real_lattice))
+            if np.abs(res.results["cumh"].data * volc - (cum - NB)).max() > 1e-9:
+                ctx.fail(f"hole-like tetrahedron state count {(res.results['cumh'].data * volc).tolist()} is not "
+                         f"CumDOS - NB = {(cum - NB).tolist()} (der=-1 weights and the anti-sea group)", case)
+            if th <= 1e-4 and bound1 / max(len(ks), 1) + 1e-9 <= 1e-7 * (1 + np.abs(ref1).max()):
+                if np.abs(res.results["dsel"].data - ref1s).max() > bound1 / len(ks) + 1e-8 * (1 + np.abs(ref1).max()):
+                    ctx.fail(f"DOS(tetra=True, select_bands={selb}) {res.results['dsel'].data.tolist()} differs from the "
+                             f"sum of the exact derivative weights of the selected bands {ref1s.tolist()}",
+                             dict(case, select_bands=selb))
             ctx.case(signature=("sys", nw, doubled, tuple(NK), tuple(Ef)), nontrivial=mode in ("span", "single"))
             # corner energies are recomputed independently: eigvalsh rounding ~1e-13 enters through F' <= 3/spread
             tol0 = 1e-9
@@ -628,16 +810,28 @@ def system_oracle(ctx, scale):
                 wsum = 0.0
                 nfft = int(np.prod(NKFFT))
                 lo2, hi2 = np.inf, -np.inf     # range of the energies at the vertices of THIS grid
+                j0 = nef // 2
+                perK = []
                 for K in g2.K_list:
+                    vals = []
                     for ijk in itertools.product(*[range(n) for n in NKFFT]):
                         kc = (np.array(K.K) + np.array(ijk)) / np.array(NKFFT)
                         Ev = np.array([band_energies(s, kc + v) for v in K.vertices_fullBZ])
                         lo2, hi2 = min(lo2, Ev.min()), max(hi2, Ev.max())
+                        vk = np.zeros(nef)
                         for ib in range(NB):
                             if Ef[-1] < Ev[:, ib].min():
                                 continue
-                            ref += K.factor / nfft * np.array([float(exact_weight(0, Ev[:, ib], x)) for x in Ef])
+                            vk += np.array([float(exact_weight(0, Ev[:, ib], x)) for x in Ef])
+                        ref += K.factor / nfft * vk
+                        vals.append(vk[j0])
+                    perK.append((K.factor, vals))
                     wsum += K.factor
+                # the model's run-level sum on the same per-point values
+                mt = ctx.lean(["runtotal " + ";".join(f"{rat(f_)}:{rats(v_)}" for f_, v_ in perK)])[0]
+                if abs(float(Fr(mt)) - c2[j0]) > 1e-9 and hop != 0.0:
+                    ctx.mismatch(f"run-level sum: code {c2[j0]!r} model runTotal {float(Fr(mt))!r}",
+                                 dict(case2, j=j0, n_Kpoints=len(perK)))
                 ctx.case(signature=("systet", nw, doubled, tuple(NKFFT), tuple(Ef)), nontrivial=True)
                 ctx.count("oracle.system.tetra_grid")
                 if abs(wsum - 1) > 1e-12:
